@@ -2,7 +2,7 @@
    and the exact specification evaluated on the implementation's own episodes. *)
 From Coq Require Import ZArith List Bool Lia Arith.
 From RL4CO Require Import Base.Num Base.EnvSig Spec.Routes Spec.TimeWindows Env.CVRP Env.CVRPProofs Env.CVRPTW Env.CVRPTWProofs
-  Harness.HEnv Harness.HCVRP.
+  Harness.HEnv Harness.HCVRP Harness.HBook.
 Import ListNotations.
 Open Scope Z_scope.
 
@@ -78,8 +78,62 @@ Definition check_C03 (c : cvrptw_case) : Z :=
 (* C05: model masks inside implementation masks *)
 Definition check_C05 (c : cvrptw_case) : Z := check_trace_de f32 (t_inst c) 1 (t_trace c).
 
+(* ---------------------------------------------------------------- the checker's instance-sanity assertions, specification side
+   What check_solution_validity documents about the INSTANCE before it looks at the solution (its five instance
+   asserts, in exact arithmetic; [sl] = slack granted on the one assert that does arithmetic): distances from the depot,
+   windows and service durations non-negative, every window of positive length, and "vehicle can perform service and get
+   back to depot in time": window start + distance + duration within the depot's deadline.  An instance that fails it is
+   outside the documented input format, whatever the solution: the checker must refuse it (23 otherwise). *)
+Definition cvrptw_sanityb (i : cvrptw_inst) (sl : Z) : bool :=
+  forallb (fun j => 0 <=? dd i 0 j) (nodes i) &&
+  forallb (fun j => (0 <=? lo i j) && (0 <=? hi i j)) (nodes i) &&
+  forallb (fun j => lo i j + dd i 0 j + du i j <=? hi i 0 + sl) (nodes i) &&
+  forallb (fun j => 0 <=? du i j) (nodes i) &&
+  forallb (fun j => lo i j <? hi i j) (nodes i).
+
+Lemma forallb_eq_ext {X} (f g : X -> bool) (l : list X) : (forall x, f x = g x) -> forallb f l = forallb g l.
+Proof. intros H. induction l as [|x l IH]; [reflexivity|]. cbn [forallb]. rewrite H, IH. reflexivity. Qed.
+
+(* what the model's [inst_checks] (the five coded asserts) means: in exact arithmetic, for the repaired checker, it IS
+   this sanity predicate *)
+Lemma cvrptw_sanityb_is_inst_checks (i : cvrptw_inst) : cvrptw_sanityb i 0 = inst_checks exact true i.
+Proof.
+  unfold cvrptw_sanityb, inst_checks, horizon_used. cbn [rnd exact].
+  rewrite (forallb_eq_ext (fun j => lo i j + dd i 0 j + du i j <=? hi i 0 + 0) (fun j => lo i j + dd i 0 j + du i j <=? hi i 0)).
+  - reflexivity.
+  - intros j. rewrite Z.add_0_r. reflexivity.
+Qed.
+
+(* an instance in the documented format (format + "a vehicle that starts service at the deadline can still return" +
+   strict windows and symmetric depot legs) passes the sanity assertions: they never refuse an in-format instance *)
+Lemma cvrptw_format_is_sane (i : cvrptw_inst) :
+  cvrptw_wfb i = true -> cvrptw_returnb i = true -> cvrptw_strictb i = true -> cvrptw_sanityb i 0 = true.
+Proof.
+  intros Hwf Hret Hst. apply cvrptw_wfb_ok in Hwf. apply cvrptw_returnb_ok in Hret. apply cvrptw_strictb_ok in Hst.
+  unfold cvrptw_sanityb. rewrite !andb_true_iff, !forallb_forall.
+  pose proof (wf_lo i Hwf) as Hlo. pose proof (wf_lohi i Hwf) as Hlh. pose proof (wf_du i Hwf) as Hdu.
+  repeat split; intros j Hj; apply nodes_in in Hj.
+  - apply Z.leb_le. apply (wf_dd i Hwf); lia.
+  - apply andb_true_iff. split; apply Z.leb_le; [apply Hlo | specialize (Hlo j); specialize (Hlh j); lia].
+  - apply Z.leb_le. destruct Hst as [_ Hsym]. specialize (Hret j Hj). specialize (Hsym j Hj). specialize (Hlh j). lia.
+  - apply Z.leb_le. apply Hdu.
+  - apply Z.ltb_lt. destruct Hst as [Hs _]. apply Hs. exact Hj.
+Qed.
+
+Example cvrptw_sanity_examples :
+  let b := {| dem := [16]; cap := 64; dist := [[0; 64]; [64; 0]]; tol := 0 |} in
+  (* depot window [0,128], customer at distance 64: window [0,32] service 8 is sane; window [60,70] service 8 cannot return;
+     a negative service duration and an empty window are refused *)
+  cvrptw_sanityb {| base := b; twlo := [0; 0]; twhi := [128; 32]; durs := [0; 8]; tu := 128; hz0 := 128; tsl := 0 |} 0 = true /\
+  cvrptw_sanityb {| base := b; twlo := [0; 60]; twhi := [128; 70]; durs := [0; 8]; tu := 128; hz0 := 128; tsl := 0 |} 0 = false /\
+  cvrptw_sanityb {| base := b; twlo := [0; 0]; twhi := [128; 32]; durs := [0; -1]; tu := 128; hz0 := 128; tsl := 0 |} 0 = false /\
+  cvrptw_sanityb {| base := b; twlo := [0; 32]; twhi := [128; 32]; durs := [0; 8]; tu := 128; hz0 := 128; tsl := 0 |} 0 = false.
+Proof. vm_compute. repeat split; reflexivity. Qed.
+
 (* C06: model of the checker agrees with the implementation's verdict (13); the verdict agrees with the
-   specification: feasible => accepted (14), infeasible beyond the tolerance => rejected (15).
+   specification: feasible => accepted (14), infeasible beyond the tolerance => rejected (15);
+   23 = the instance fails the sanity assertions (beyond the slack [tsl]) and the checker accepted all the same: an
+   instance outside the documented format passed -- judged first, it needs neither the model nor the solution.
    1000 + code: the wrong verdict is the one the MODEL of the shipped checker predicts and the repaired checker would
    decide correctly, i.e. the mechanism is the truncation of arrival times (1015) resp. the use of batch row 0's
    horizon (1014); any other wrong verdict keeps the plain code.  The property's own failure (14/15, judged on the
@@ -89,7 +143,8 @@ Definition c06_code (fx : bool) (i : cvrptw_inst) (acts : list nat) (verdict : b
   let inscope := cvrptw_wfb i && cvrptw_returnb i in           (* hypotheses of the theorems *)
   let v14 := inscope && cvrptw_strictb i && cvrptw_feasibleb i 0 0 acts && negb verdict in
   let v15 := inscope && negb (cvrptw_feasibleb i (3 * tol (base i)) (tsl i) acts) && verdict in
-  if v14 then (if negb m && cvrptw_checker f32 true i acts then 1014 else 14)
+  if negb (cvrptw_sanityb i (tsl i)) && verdict then 23
+  else if v14 then (if negb m && cvrptw_checker f32 true i acts then 1014 else 14)
   else if v15 then (if m && negb (cvrptw_checker f32 true i acts) then 1015 else 15)
   else if negb (Bool.eqb m verdict) then 13
   else 0.
@@ -110,3 +165,12 @@ Definition check_C06_sol_fixed (c : cvrptw_inst * list nat * bool) : Z :=
 Definition instance_class (i : cvrptw_inst) : Z :=
   (if cvrptw_wfb i then 1 else 0) + (if cvrptw_solvableb i then 2 else 0) +
   (if cvrptw_returnb i then 4 else 0) + (if cvrptw_strictb i then 8 else 0).
+
+(* ---------------------------------------------------------------- bookkeeping (C02 / C04, see Harness/HBook.v)
+   keys of the env's step output compared after every step, in this order:
+   current_node (= the action just taken), used_capacity, visited (bit j = node j), current_time *)
+Definition tw_book_obs (s : cvrptw_st) : list Z := [Z.of_nat (cur (cst s)); used (cst s); bitsZ (vis (cst s)); time s].
+Definition tw_book_kinds : list nat := [2; 0; 0; 0]%nat.
+Definition cvrptw_book := (cvrptw_inst * list Z * list Z * list (nat * list Z))%type.
+Definition check_book_tw (c : cvrptw_book) : Z :=
+  match c with (i, tols, o0, tr) => book_check (CVRPTW f32) i tw_book_obs tw_book_kinds tols o0 tr end.
